@@ -61,6 +61,9 @@ def inlinable(fi):
     a = fn.args
     if a.vararg or a.kwarg or a.kwonlyargs or a.posonlyargs:
         return None
+    # a mutable default is ONE object for all calls: writing the default out at each call site would make it a fresh one
+    if any(isinstance(d, (ast.Dict, ast.List, ast.Set, ast.ListComp, ast.DictComp, ast.SetComp)) or (isinstance(d, ast.Call) and not (isinstance(d.func, ast.Name) and d.func.id in ("timedelta", "frozenset", "tuple", "int", "float", "str"))) for d in a.defaults):
+        return None
     if _has(fn, (ast.Yield, ast.YieldFrom, ast.Global, ast.Nonlocal, ast.Await)):
         return None
     if len(fn.body) > 40:
@@ -354,6 +357,22 @@ class _ExprInline(ast.NodeTransformer):
 
     def visit_Call(self, n):
         self.generic_visit(n)
+        # sorted(xs, key=helper) with an unknown one-expression module function: the function's own lambda
+        for slot, v in [("a", i_) for i_ in range(len(n.args))] + [("k", i_) for i_ in range(len(n.keywords))]:
+            node_ = n.args[v] if slot == "a" else n.keywords[v].value
+            if isinstance(node_, ast.Name) and isinstance(node_.ctx, ast.Load):
+                hf = self.caller.nested.get(node_.id) or self.mi.funcs.get(node_.id)
+                if hf is not None and hf.qname in self.cands and hf is not self.caller and hf.cls is None and not hf.node.args.defaults and not getattr(self.cands[hf.qname], "_nested_only", False):
+                    lam = ast.Lambda(args=ast.arguments(posonlyargs=[], args=[ast.arg(arg=a_.arg) for a_ in hf.node.args.args], kwonlyargs=[], kw_defaults=[], defaults=[]), body=ast.parse(ast.unparse(self.cands[hf.qname]), mode="eval").body)
+                    ast.copy_location(lam, node_)
+                    for x in ast.walk(lam):
+                        if not hasattr(x, "lineno"):
+                            ast.copy_location(x, node_)
+                    if slot == "a":
+                        n.args[v] = lam
+                    else:
+                        n.keywords[v].value = lam
+                    self.done.append((self.caller.qname, hf.qname))
         # f(a=x, **{"b": y})  ->  f(a=x, b=y)
         if any(k.arg is None and isinstance(k.value, ast.Dict) and all(isinstance(kk, ast.Constant) and isinstance(kk.value, str) and kk.value.isidentifier() for kk in k.value.keys) for k in n.keywords):
             kws = []
@@ -648,6 +667,26 @@ def inline_new_helpers(prog):
             is_for = isinstance(st, ast.For)  # the iterable of a `for` is evaluated once, before the first round
             if not is_if and not is_for and (not isinstance(st, (ast.Expr, ast.Assign, ast.Return)) or st.value is None):
                 return [st]
+            # x = A if c else B with a multi-statement helper called in an arm: the statement form, so that the arm can be expanded
+            if isinstance(st, (ast.Assign, ast.Return)) and isinstance(st.value, ast.IfExp) and any(isinstance(c_, ast.Call) and target(c_, caller) is not None for arm in (st.value.body, st.value.orelse) for c_ in ast.walk(arm)):
+                ie = st.value
+
+                def _arm(v):
+                    if isinstance(st, ast.Return):
+                        n_ = ast.Return(value=v)
+                    else:
+                        n_ = ast.Assign(targets=[ast.parse(ast.unparse(t_)).body[0].value for t_ in st.targets], value=v)
+                        for t_ in n_.targets:
+                            for z in ast.walk(t_):
+                                if hasattr(z, "ctx") and isinstance(z, (ast.Name, ast.Attribute, ast.Subscript)) and z is t_:
+                                    z.ctx = ast.Store()
+                    ast.copy_location(n_, st)
+                    return ast.fix_missing_locations(n_)
+
+                new_if = ast.If(test=ie.test, body=[_arm(ie.body)], orelse=[_arm(ie.orelse)])
+                ast.copy_location(new_if, st)
+                ast.fix_missing_locations(new_if)
+                return hoist(new_if, caller)
             top = None if (is_if or is_for) else st.value  # (the test of an `if` is evaluated once, before the branches: same treatment)
             pre = []
             k = 0
